@@ -196,6 +196,11 @@ UNIT = Unit(
            ensures=[("C16-tabs-wf", "final(self).tabs_wf()"),
                     ("C16-finish-message", "match finish { ProgressFinish::WithMessage(m) => final(self).state.message.orig() == m@, ProgressFinish::AbandonWithMessage(m) => final(self).state.message.orig() == m@, _ => final(self).state.message == old(self).state.message }"),
                     ("frame", "final(self).state.prefix == old(self).state.prefix && final(self).tab_width == old(self).tab_width")]),
+        Fn("src/progress_bar.rs", "ProgressBar", "set_style", sig_rewrites=[K.SELF_MUT], rewrites=[Rw("R2", r"self\.state\(\)", "self.state", count=1)],
+           requires=[("wf", "old(self).state.tabs_wf()"), ("style-wf", "style.template.wf()")],
+           ensures=[("C16-tabs-wf", "final(self).state.tabs_wf()"),
+                    ("C16-same-template", "same_shape(style.template.parts@, final(self).state.style.template.parts@)"),
+                    ("frame", "final(self).state.tab_width == old(self).state.tab_width && final(self).state.state.message == old(self).state.state.message && final(self).state.state.prefix == old(self).state.state.prefix")]),
         Fn("src/progress_bar.rs", "ProgressBar", "set_message", sig_rewrites=PB_SIG, rewrites=PB_BODY,
            requires=[("wf", "old(self).state.tabs_wf()"), ("target-wf", "old(self).state.draw_target.wf2()")],
            ensures=[("C16-tabs-wf", "final(self).state.tabs_wf()"), ("C16-message", "final(self).state.state.message.orig() == msg@"),
